@@ -125,7 +125,8 @@ static bool IsLess(const Char_T *left, const Char_T *right, SizeT left_length, S
         ++offset;
     }
 
-    return (orEqual & (left_length == right_length));
+    // One is a prefix of the other (or they are equal): the shorter one sorts first.
+    return ((left_length < right_length) || (orEqual & (left_length == right_length)));
 }
 
 template <typename Char_T>
@@ -145,7 +146,8 @@ static bool IsGreater(const Char_T *left, const Char_T *right, SizeT left_length
         ++offset;
     }
 
-    return (orEqual & (left_length == right_length));
+    // One is a prefix of the other (or they are equal): the longer one sorts last.
+    return ((left_length > right_length) || (orEqual & (left_length == right_length)));
 }
 
 template <typename Char_T>
